@@ -71,7 +71,7 @@ class Recorder:
         self._per_bucket[b] = self._per_bucket.get(b, 0) + 1
         if self._per_bucket[b] <= MAX_PER_BUCKET and len(self.failures) < MAX_FAILS_KEPT:
             self.failures.append({'case': case, 'expected': expected, 'actual': actual, 'relation': relation,
-                                  'bucket': bucket or relation, 'extra': extra})
+                                  'bucket': bucket or relation, 'extra': extra, 'shard': self.shard})
 
     def export(self):
         return {'shard': self.shard, 'evaluations': self.evaluations, 'nontrivial': sorted(self.nontrivial),
@@ -109,6 +109,15 @@ def _worker(args):
         return {'harness_error': f'{e}', 'shard': spec.get('shard', 0)}
     except BaseException:  # noqa
         return {'harness_error': traceback.format_exc(), 'shard': spec.get('shard', 0)}
+
+
+def _rerun_shard(prop_name, tier, spec):
+    ctx = multiprocessing.get_context('spawn')
+    with ctx.Pool(1) as pool:
+        r = pool.map(_worker, [(prop_name, tier, spec, time.time() + 3600)])[0]
+    if 'harness_error' in r:
+        return None
+    return r['failures']
 
 
 def json_size(x):
@@ -207,7 +216,8 @@ def write_replay(prop, tier, fail):
     with open(path, 'w') as f:
         json.dump({'property': prop.ID, 'engine': prop.__name__, 'seed': env.SEED, 'tier': tier,
                    'case': fail['case'], 'expected': fail['expected'], 'actual': fail['actual'],
-                   'relation': fail['relation'], 'bucket': fail['bucket'], 'extra': fail.get('extra')},
+                   'relation': fail['relation'], 'bucket': fail['bucket'], 'extra': fail.get('extra'),
+                   **({'shard_spec': fail['shard_spec']} if fail.get('shard_spec') else {})},
                   f, indent=1, default=repr)
     return path
 
@@ -230,6 +240,7 @@ def run_property(prop_name, tier):
     budget = prop.BUDGET_S[tier]
     deadline = t0 + budget
     open_f, fixed_f = findings_mod.load(pid)
+    env.tmpdir()    # exported as VF_TMP_PARENT: the workers' scratch directories live inside and go with it
     rdir = os.environ.get('VF_REPLAY_DIR') or os.path.join(env.VERIF, 'replays')
     if os.path.isdir(rdir):
         for fn in os.listdir(rdir):
@@ -268,11 +279,13 @@ def run_property(prop_name, tier):
     specs = prop.plan(tier)
     nproc = min(int(os.environ.get('VF_PROCS', '16')), max(1, len(specs)))
     args = [(prop_name, tier, s, deadline) for s in specs]
-    if nproc == 1:
+    if nproc == 1 and os.environ.get('VF_INPROCESS') == '1':
         results = [_worker(a) for a in args]
     else:
-        ctx = multiprocessing.get_context('fork')
-        with ctx.Pool(nproc, maxtasksperchild=None) as pool:
+        # one fresh interpreter per shard: what a shard sees of the product's process-global state must not depend on
+        # which other shards the same worker happened to run before (a shard is a pure function of tree and seed)
+        ctx = multiprocessing.get_context('spawn')
+        with ctx.Pool(nproc, maxtasksperchild=1) as pool:
             results = pool.map(_worker, args, chunksize=1)
 
     merged = {'evaluations': 0, 'nontrivial': set(), 'samples': [], 'classes': collections.Counter(),
@@ -317,6 +330,19 @@ def run_property(prop_name, tier):
         again = prop.run_case(x['case'])
         again = [y for y in (again or []) if not any(findings_mod.matches(prop, f, y) for f in active)]
         if not again:
+            # the case passes when run alone: the failure may depend on what the process did before (process-global state
+            # of the product is part of several properties).  Re-run the whole shard in a fresh process: the shard is a
+            # pure function of (tree, seed), so a real history-dependent failure shows up again.
+            spec = next((s_ for s_ in specs if s_.get('shard', 0) == x.get('shard')), None)
+            rerun = _rerun_shard(prop_name, tier, spec) if spec is not None else None
+            same = [y for y in (rerun or []) if y['bucket'] == b and env.chash(y['case']) == env.chash(x['case'])]
+            if same:
+                y = dict(same[0])
+                y['extra'] = {**(y.get('extra') or {}), 'history_dependent': True,
+                              'note': 'passes when run alone; reproduced by re-running the shard from its start in a fresh process'}
+                y['shard_spec'] = spec
+                violations.append(y)
+                continue
             print(f'HARNESS-ERROR property={pid}: failure in bucket {b} did not reproduce in isolation: '
                   f'{json.dumps(x, default=repr)[:1500]}', file=sys.stderr)
             write_evidence(prop, tier, merged, time.time() - t0, 0, notes + ['unreproducible failure: ' + b])
@@ -354,7 +380,12 @@ def replay(path):
     with open(path) as f:
         r = json.load(f)
     prop = importlib.import_module(r.get('engine') or f'vf.props.{r["property"].lower()}')
-    fs = prop.run_case(r['case'])
+    if r.get('shard_spec'):
+        # history-dependent failure: the reproduction unit is the shard from its start
+        fs = _rerun_shard(prop.__name__.split('.')[-1], r.get('tier', 'quick'), r['shard_spec']) or []
+        fs = [y for y in fs if y['bucket'] == r['bucket'] and env.chash(y['case']) == env.chash(r['case'])]
+    else:
+        fs = prop.run_case(r['case'])
     open_f, _ = findings_mod.load(prop.ID)
     if not fs:
         print(f'replay {path}: case passes on this tree')
